@@ -874,7 +874,7 @@ class Emit:
 import os
 BYTELOOPS = os.environ.get('VLL_BYTELOOPS') == '1'   # variable-length memset/memcpy as bounded byte loops instead of CBMC's built-ins
 LIBCGLOBALS = {'__libc_single_threaded', 'stdout', 'stderr', 'stdin', 'environ', 'timezone', 'daylight'}   # real libc objects: declared extern, no prefix
-RTGLOBALS = {'vll_tz_offset', 'vll_now_value', 'vll_now_set', 'vll_alloc_forbidden', 'vra_loc_overflow_prunes', 'vll_fatal_ok', 'vll_fatal_seen', 'vll_exc', 'vll_exc_obj', 'vll_exc_type', 'vll_exc_ti'}
+RTGLOBALS = {'vll_tz_offset', 'vll_tz_dst_at', 'vll_tz_dst_delta', 'vll_now_value', 'vll_now_set', 'vll_alloc_forbidden', 'vra_loc_overflow_prunes', 'vll_fatal_ok', 'vll_fatal_seen', 'vll_exc', 'vll_exc_obj', 'vll_exc_type', 'vll_exc_ti'}
 BUILTIN = {'strsignal', 'strtoul', 'strtol', 'strtoull', 'strtoll', 'strtod', 'strtof', 'getenv', 'atoi', 'atol', 'qsort', 'bsearch', 'rand', 'srand', 'atexit', 'system', 'memrchr', 'strdup', 'strerror', 'bcmp', '__CPROVER_assume', '__CPROVER_assert', 'malloc', 'free', 'calloc', 'realloc', 'memcpy', 'memset', 'memmove', 'strlen', 'strnlen', 'memchr', 'memcmp', 'strcmp', 'strncmp', 'strcpy', 'strncpy', 'strchr', 'strrchr', 'strstr', 'exit', 'abs', 'labs',
            'vnd_u64', 'vnd_range', 'vassume', 'vassert_at', 'vwitness_at', 'vobs', 'vll_abort', 'vll_assert_fail', 'vll_printf', 'vll_fprintf', 'vll_puts',
            'vll_forbidden', 'vll_rdtsc', 'vll_cxa_atexit', 'vll_guard_acquire', 'vll_guard_release', 'vll_pure_virtual',
